@@ -2,7 +2,7 @@
    Both execution loops of pydra.engine.submitter.Submitter, for every oracle (= every completion
    order, several completions per wake-up, every pattern of jobs "seen running"), every
    max_concurrent, every set of failing jobs, every graph listed in topological order. *)
-From Pydra Require Import Base.Prelude Base.SchedBase Model.Sched Spec.Sched Proofs.SchedG Proofs.SchedH Proofs.SchedI Proofs.SchedK Proofs.SchedL Proofs.SchedN Proofs.SchedTermA.
+From Pydra Require Import Base.Prelude Base.SchedBase Model.Sched Spec.Sched Proofs.SchedG Proofs.SchedH Proofs.SchedI Proofs.SchedK Proofs.SchedL Proofs.SchedN Proofs.SchedTermA Proofs.SchedO.
 
 Section C15.
 Variable V : Type.
@@ -219,3 +219,39 @@ Example C15_async_zero_chain_detail :
   let o := run_async unit (fun _ _ _ => tt) (fun _ => false) repaired zero_chain None [] 40 in
   o_status o = Stalled /\ launches o = [] /\ mem_job (11, 0) (all_jobs zero_chain) = true.
 Proof. vm_compute. repeat split. Qed.
+
+(* ------------------------------------------------------------------------------------------------
+   Positive counterpart of C15_async_zero_chain_refuted.  The stall block polls at most eleven times and
+   gives up when ten polls in a row (nothing launched, nothing pending) returned no job; without failing
+   jobs such a poll always starts a node with ZERO jobs that was not started before (Proofs/SchedO.v,
+   poll_progressZ).  Side condition the proof needs, computable on the graph: fewer than ten empty nodes
+   (empty_nodes g <= stall_limit - 2 with stall_limit = 11, the argument of stall_loop) — it bounds every run
+   of consecutive empty polls, whatever chains the empty nodes form.  Then, for EVERY oracle, |jobs| + 2
+   iterations suffice, the run ends Finished, and every job is launched exactly once and finishes. *)
+Definition empty_nodes (g : graph) : nat := List.length (filter (fun nd => njobs nd =? 0) g).
+Definition stall_limit : nat := 11.
+
+Theorem C15_async_every_job_exactly_once_bounded_empty :
+  forall (V : Type) (body : nat -> nat -> list (list (option V)) -> V) (fails : job -> bool)
+         (vr : variant) (g : graph) (kmax : option nat),
+    fix14 vr = true -> wf_graph g -> (forall j, fails j = false) -> (forall k, kmax = Some k -> 1 <= k) ->
+    empty_nodes g + 2 <= stall_limit ->
+    forall orc fuel, List.length (all_jobs g) + 2 <= fuel ->
+    o_status (run_async V body fails vr g kmax orc fuel) = Finished
+    /\ every_job_once g (event_log (run_async V body fails vr g kmax orc fuel)).
+Proof.
+  intros V body fails vr g kmax F WF NF KP EZ orc fuel B.
+  assert (S : o_status (run_async V body fails vr g kmax orc fuel) = Finished).
+  { apply (async_terminates_bounded_empty V body fails vr F g WF kmax NF KP); [exact EZ|exact B]. }
+  split; [exact S|apply async_all_run; assumption].
+Qed.
+Print Assumptions C15_async_every_job_exactly_once_bounded_empty.
+
+(* non-vacuity: three empty nodes (two of them consecutive), k = 1, an oracle with multi-completions;
+   and the side condition is sharp in kind: zero_chain has 11 empty nodes and is the refutation above *)
+Example C15_bounded_empty_nonvacuous :
+  let g := [mkNode 0 [] 0; mkNode 1 [0] 0; mkNode 2 [1] 2; mkNode 3 [] 1; mkNode 4 [2; 3] 0; mkNode 5 [4] 1] in
+  let o := run_async unit (fun _ _ _ => tt) (fun _ => false) repaired g (Some 1) [mkStep [1; 0] [true]] 6 in
+  wf_graph g /\ empty_nodes g = 3 /\ List.length (all_jobs g) + 2 <= 6
+  /\ o_status o = Finished /\ List.length (launches o) = 4 /\ empty_nodes zero_chain = 11.
+Proof. vm_compute. repeat split; repeat constructor. Qed.
